@@ -3,10 +3,11 @@
 -/
 import OHVerif.Model.DriverLax
 import OHVerif.Model.VarBuild
+import OHVerif.Model.RdOptic
 
 namespace OH
 namespace Drv
-open VarB
+open VarB RdO Sig
 
 def residualFam (a : Nat) : L :=
   match a % 3 with
@@ -22,40 +23,6 @@ def opticFam (fov rov : Nat) : LOptic Nat Nat Nat Nat where
     .ok (LOHG.singleton a (s.flatMap (famObj fov)) (t.flatMap (famObj fov) ++ residualFam a))
   revOperation := fun a s t =>
     .ok (LOHG.singleton (a + 100) (residualFam a ++ t.flatMap (famObj rov)) (s.flatMap (famObj rov)))
-
-/-- forward image of `mul`: `(x, y) ↦ (x·y, x, y)` built with the same builder calls as the harness -/
-def rdFwdMul : LF :=
-  let h0 : LH := LHG.empty
-  let (h1, _, (sx, cx)) := h0.newOperation 3 [0] [0, 0]
-  let (h2, _, (sy, cy)) := h1.newOperation 3 [0] [0, 0]
-  let (h3, _, (mi, mo)) := h2.newOperation 1 [0, 0] [0]
-  let h4 := h3.unify (cx.getD 0 0) (mi.getD 0 0)
-  let h5 := h4.unify (cy.getD 0 0) (mi.getD 1 0)
-  ⟨[sx.getD 0 0, sy.getD 0 0], [mo.getD 0 0, cx.getD 1 0, cy.getD 1 0], h5⟩
-
-/-- reverse image of `mul`: `(x, y, dz) ↦ (y·dz, x·dz)` -/
-def rdRevMul : LF :=
-  let h0 : LH := LHG.empty
-  let (h1, _, (s1, d)) := h0.newOperation 3 [0] [0, 0]
-  let (h2, _, (i2, o1)) := h1.newOperation 1 [0, 0] [0]
-  let (h3, _, (i3, o2)) := h2.newOperation 1 [0, 0] [0]
-  let h4 := h3.unify (d.getD 0 0) (i2.getD 1 0)
-  let h5 := h4.unify (d.getD 1 0) (i3.getD 1 0)
-  ⟨[i3.getD 0 0, i2.getD 0 0, s1.getD 0 0], [o1.getD 0 0, o2.getD 0 0], h5⟩
-
-/-- the standard reverse-derivative lenses over one object -/
-def rdOptic : LOptic Nat Nat Nat Nat where
-  fwdObject := fun o => [o]
-  revObject := fun o => [o]
-  residual := fun a => if a == 1 then [0, 0] else []
-  fwdOperation := fun a s t => .ok (if a == 1 then rdFwdMul else LOHG.singleton a s t)
-  revOperation := fun a _ _ => .ok (match a with
-    | 0 => LOHG.singleton 3 [0] [0, 0]
-    | 1 => rdRevMul
-    | 2 => LOHG.singleton 2 [0] [0]
-    | 3 => LOHG.singleton 0 [0, 0] [0]
-    | 4 => LOHG.singleton 10 [] [0]
-    | _ => LOHG.singleton 4 [0] [])
 
 /-! #### reference reverse derivative by forward-mode dual numbers (oracle) -/
 
